@@ -192,7 +192,7 @@ def check_case(bitfield_mod, case, success_clause="auto_placement_should_succeed
                     why_ok = None
                     if s is not None:
                         lo, hi = s, s + (l or 1)
-                        if hi > L or lo >= L:
+                        if hi > L or lo >= L or lo < 0:
                             why_ok = "overflow"
                         for j in defined:
                             sj, lj = placed.get(j, (F[j]["start_at"], F[j]["length"]))
@@ -232,7 +232,9 @@ def check_case(bitfield_mod, case, success_clause="auto_placement_should_succeed
 
     conflict = None
     for i in explicit:
-        if F[i]["start_at"] + need_width(i) > L:
+        if F[i]["start_at"] < 0:
+            conflict = "explicit field %r starts at bit %d, below the bit field" % (name[i], F[i]["start_at"])
+        elif F[i]["start_at"] + need_width(i) > L:
             conflict = "explicit field %r (start %d, %d bits needed) overflows the %d-bit field" % (name[i], F[i]["start_at"], need_width(i), L)
     for i, j in itertools.combinations(explicit, 2):
         if co_present(parents, i, j):
@@ -544,7 +546,7 @@ def run(tier="quick", seed=0):
     # (A) n = 1, 2: every structure/order x every numeric choice (start 0..L incl. the overflowing L, explicit
     #     lengths 1..3 (1..L for one field), automatic widths 1..3 (1..L for one field))
     for L in ((4, 5, 6, 7, 8) if thorough else (4, 5, 8)):
-        for (spec, mv) in spec_options(L, lens=range(1, L + 2), widths=range(1, L + 1)):
+        for (spec, mv) in spec_options(L, lens=range(1, L + 2), widths=range(1, L + 1), starts=range(-2, L + 1)):
             for hist in ("plain", "layout_first"):
                 go(make_case(L, (None,), [spec], [mv], history=hist, style=ev % 8), "A1")
     for L in ((4, 5, 6, 7, 8) if thorough else (4, 5)):
@@ -679,7 +681,7 @@ def run(tier="quick", seed=0):
                      "definitions honoured, read-back per field and whole key, mask == union of present fields in every partial scope and complete assignment (<= %d per case), tag "
                      "key/mask == tag's fields + the fields they depend on, distinct complete assignments (and distinct tag restrictions) never match, unknown tag / too-wide value "
                      "refused, success clause (no explicit start, single layout, co-present widths sum <= L => assign_fields succeeds). Layers %r: A exhaustive numerics for 1-2 fields "
-                     "(start 0..L, lengths/widths 1..3, 1..L+1 for one field); B every structure x order x explicit/automatic mode for 3 (and %s 4) fields with drawn numerics, L in 4..8 "
+                     "(start 0..L - for one field -2..L -, lengths/widths 1..3, 1..L+1 for one field); B every structure x order x explicit/automatic mode for 3 (and %s 4) fields with drawn numerics, L in 4..8 "
                      "(7%% 32/64); C every tag placement over every structure; D every all-automatic structure with widths 1..2 in the exactly-filled and one-bit-larger bit field, plus "
                      "32/64-bit fields filled to the last bit; E all-automatic 5-field structures (inner widths 1..2, exactly filled; a failure of the success clause is finding D15 only for the inputs listed in known_findings_data/c08_first_fit.json); F scopes that fix any subset of two independent selector fields a (1 bit), b (2 bits): 1-3 further automatic fields (quick: an eighth of the 3-field cases), exactly filled and one bit larger. non-trivial = laid out with >= 2 complete assignments compared, or rejected; "
                      "outcomes %r" % (MAX_ASSIGNMENTS, layers, "every" if thorough else "a seeded 20% of", stats)),
